@@ -380,6 +380,11 @@ pub struct Exchange {
 
 pub struct NetState {
     pub log: Vec<Exchange>,
+    /// EDNS payload sizes seen in requests, and whether any request name had an upper-case letter
+    pub payloads: std::collections::BTreeSet<u16>,
+    pub saw_upper: bool,
+    /// letters seen in request names (a randomised name of few letters may be all lower case)
+    pub letters: usize,
 }
 
 #[derive(Clone)]
@@ -392,7 +397,7 @@ pub struct Net {
 
 impl Net {
     pub fn new(inet: Arc<Internet>, timeout: Duration) -> Net {
-        Net { inet, state: Arc::new(Mutex::new(NetState { log: vec![] })), timeout, rt: TokioRuntimeProvider::new() }
+        Net { inet, state: Arc::new(Mutex::new(NetState { log: vec![], payloads: Default::default(), saw_upper: false, letters: 0 })), timeout, rt: TokioRuntimeProvider::new() }
     }
     pub fn exchanges(&self) -> usize {
         self.state.lock().unwrap().log.len()
@@ -416,7 +421,15 @@ impl DnsHandle for Conn {
         let q = request.queries[0].clone();
         // the recursor may randomise case; the simulated servers are case-insensitive
         let ql = Query::new(q.name.to_lowercase(), q.query_type);
-        self.net.state.lock().unwrap().log.push(Exchange { ip: self.ip, qname: ql.name.to_ascii(), qtype: ql.query_type.to_string() });
+        {
+            let mut st = self.net.state.lock().unwrap();
+            st.log.push(Exchange { ip: self.ip, qname: ql.name.to_ascii(), qtype: ql.query_type.to_string() });
+            st.payloads.insert(request.max_payload());
+            st.letters += q.name.to_ascii().chars().filter(|c| c.is_ascii_alphabetic()).count();
+            if q.name.to_ascii().chars().any(|c| c.is_ascii_uppercase()) {
+                st.saw_upper = true;
+            }
+        }
         let resp = self.net.inet.respond(self.ip, &ql);
         let id = request.id;
         let timeout = self.net.timeout;
